@@ -576,7 +576,8 @@ where
                     let body_len_and_tag = header.get_u64();
                     let tag = (body_len_and_tag & OP_MASK) >> OP_SHIFT;
                     if src.remaining() < HEADER_INIT_LEN + node_len + lane_len {
-                        src.reserve(node_len + lane_len);
+                        // The lengths are not trusted: they are only a hint for how much space to make.
+                        src.reserve((node_len + lane_len).min(MAX_RESERVE));
                         break Ok(None);
                     }
                     src.advance(HEADER_INIT_LEN);
